@@ -3,7 +3,7 @@ from fractions import Fraction as Fr
 
 from engine import loader
 from engine.runner import Acc
-from engine.util import call, chunks
+from engine.util import call, chunks, ts_dec, ts_pair
 from spec import cpr as C
 from spec import cprsets as S
 from spec import frames as F
@@ -26,7 +26,7 @@ TCS = [9, 11, 18, 20, 22]
 def judge(p):
     fn, m0, m1, t0, t1, exp = p
     f = pms.adsb.position if fn == "position" else pms.adsb.airborne_position
-    r = call(f, m0, m1, t0, t1)
+    r = call(f, m0, m1, ts_dec(t0), ts_dec(t1))
     if exp == "no_exception":
         ok = r[0] == "ok" and (r[1] is None or (isinstance(r[1], tuple) and len(r[1]) == 2 and all(x == x for x in r[1])))
         return None if ok else "airborne:raises_or_malformed_at_a_transition_latitude:%s" % (r[1] if r[0] != "ok" else "shape")
@@ -112,14 +112,16 @@ def w_lats(arg):
                 acc.out.add((e0["yz"], e0["xz"], e1["yz"], e1["xz"]))
                 for newer_even in (True, False):
                     exp = expected(e0, e1, newer_even)
-                    t0, t1 = (10, 9) if newer_even else (9, 10)
+                    # the representation of the two timestamps rotates: ints, 0, sub-second floats, epoch floats,
+                    # datetimes inside one second / across a minute boundary, negative, huge gap
+                    t0, t1 = ts_pair(k + (1 if newer_even else 0) * 3, newer_even)
                     for order in (0, 1):
                         args = (m0, m1, t0, t1) if order == 0 else (m1, m0, t1, t0)
                         fn = "position" if (k + order) % 3 else "airborne_position"
                         acc.n += 1
                         if exp == "no_exception":
                             acc.c["within_1e-9_of_transition_only_totality_judged"] += 1
-                            r = call(getattr(pms.adsb, fn), *args)
+                            r = call(getattr(pms.adsb, fn), args[0], args[1], ts_dec(args[2]), ts_dec(args[3]))
                             if r[0] != "ok" or not (r[1] is None or (isinstance(r[1], tuple) and len(r[1]) == 2 and all(x == x for x in r[1]))):
                                 acc.bad("airborne:raises_or_malformed_at_a_transition_latitude:%s" % (r[1] if r[0] != "ok" else "shape"),
                                         {"p": [fn] + list(args) + ["no_exception"]})
